@@ -46,7 +46,8 @@ def run (inp obs : List String) : Verdict :=
     match parseContoursTok ctok with
     | none => { agree := false, model := "bad-input" }
     | some cs =>
-      let v1 := fmt = "1"
+      -- `<fmt>` or `<fmt>@<attribute order>`: the order is the harness's business, the model does not depend on it
+      let v1 := (fmt.splitOn "@").headD "" = "1"
       let plain := cs.map (·.map Prod.fst)
       -- model
       let modelOut := match parseOutline v1 cs with
